@@ -199,9 +199,9 @@ func c15Run(cfgIdx int, hist []int) *mc.SeqOut {
 
 func init() {
 	mc.Register(&mc.Property{
-		ID:    "C15",
-		Level: "fault_enumeration",
-		Rule: "every history of the old leader up to depth 3 (thorough 4) over {create/update/delete on 2 keys, 1/10/100 failed writes (which consume revisions without touching the engine), lock renewal}, the old leader stopping after every history (every prefix is a history), then a new backend over the same store taking the lock over through the real resource lock and running the production OnStartedLeading code; on memkv (virtual clock advanced by 1 ms), badger and tikv-mock with a fresh database per history; oracle: the first three revisions of the new leader exceed every revision in the store, guarded updates of all pre-existing live keys succeed, List equals the model; a case is distinct by its history and engine",
+		ID:     "C15",
+		Level:  "fault_enumeration",
+		Rule:   "every history of the old leader up to depth 3 (thorough 4) over {create/update/delete on 2 keys, 1/10/100 failed writes (which consume revisions without touching the engine), lock renewal}, the old leader stopping after every history (every prefix is a history), then a new backend over the same store taking the lock over through the real resource lock and running the production OnStartedLeading code; on memkv (virtual clock advanced by 1 ms), badger and tikv-mock with a fresh database per history; oracle: the first three revisions of the new leader exceed every revision in the store, guarded updates of all pre-existing live keys succeed, List equals the model; a case is distinct by its history and engine",
 		Assume: []string{"OnStartedLeading is the production function literal, lifted by the instrumenter into a callable method (client-go's real-time elector loop is not run)", "the old leader is simply not used any more (crash = stop)"},
 		Exec:   func(j *mc.Job) *mc.JobResult { return mc.SeqExec(j, c15Run) },
 		Drive: func(c *mc.Ctx) {
